@@ -99,3 +99,16 @@ CASES += [
     {"name": "array helper takes the number of rows with len()", "kind": "twin", "edits": [
         ("quantarhei/core/parallel.py", "    ln = array.shape[0]", "    ln = len(array)", 1)]},
 ]
+
+_PAR20 = "quantarhei/core/parallel.py"
+_RB_OLD = "                        data = numpy.zeros(data_shape, dtype=data_type)\n"
+CASES += [
+    {"name": "one receive buffer per sending process (seeded change of round 8)", "kind": "mutant", "rule": "C20-H", "edits": [
+        (_PAR20, _RB_OLD, "                        if buffer is None:\n                            buffer = numpy.zeros(data_shape, dtype=data_type)\n                        data = buffer\n", 1),
+        (_PAR20, "                rng = config.ranges[ii]\n                #print(\"recieving from:\", ii)\n", "                rng = config.ranges[ii]\n                buffer = None\n", 1)]},
+    {"name": "receive buffer allocated before the loops", "kind": "mutant", "rule": "C20-H", "edits": [
+        (_PAR20, _RB_OLD, "                        data = recvbuf\n", 1),
+        (_PAR20, "            data_type = COMPLEX\n", "            data_type = COMPLEX\n            recvbuf = numpy.zeros(data_shape, dtype=data_type)\n", 1)]},
+    {"name": "receive buffer allocated per item under another name", "kind": "twin", "edits": [
+        (_PAR20, _RB_OLD, "                        recvbuf = numpy.empty(data_shape, dtype=data_type)\n                        data = recvbuf\n", 1)]},
+]
